@@ -158,6 +158,7 @@ def ends_with(p, suf):
 
 class SymStr:
     """mixin: intrinsic() for string/fmt/iterator operations"""
+    str_cap = 1000
 
     def __init__(self, facts):
         self.facts = facts
@@ -359,7 +360,10 @@ class SymStr:
             if tgt[0] == "ref":
                 cur = pieces_of(I.read(st, tgt[1]))
                 if cur is not None and add is not None:
-                    return [(OK, UNIT, I.write(st, tgt[1], mk(cur + add)))]
+                    nv = mk(cur + add)
+                    if len(nv[1]) > self.str_cap or sum(len(x[1]) for x in nv[1] if x[0] == "lit") > 8 * self.str_cap:
+                        nv = unk("longstring")
+                    return [(OK, UNIT, I.write(st, tgt[1], nv))]
                 return [(OK, UNIT, I.write(st, tgt[1], unk("push")))]
             return [(OK, UNIT, st)]
         if c in ("<alloc::string::String as core::ops::arith::Add<&str>>::add", "core::ops::arith::Add::add") and p0 is not None:
